@@ -18,7 +18,7 @@ API's colour; `needs attention`: listed with the rule's selector, nothing writte
 """
 import ast
 import z3
-from vf.contracts import Contract
+from vf.contracts import Contract, LoopSpec
 from vf.values import *
 from vf import symex as sx
 
@@ -226,3 +226,57 @@ def register_c08(reg):
         props={k: ['C08', 'C09'] for k in ('settings_forwarded', 'descends_only_into_media_or_supports', 'rebuilt_after_descent')},
         opts={'local_roles': ['node']},
         note='extracted block: see vf/extract.py'))
+
+
+    # ------------------------------------------------------------------ the declaration scan: "the last `color` / `background-color` declaration wins" (CSS), for lists of any length
+    QS = f'{CLI}:process_nodes_recursive__decl_scan'
+    DOBJ = ('obj', 'tinycss2.ast:Declaration', {'idx': 'int', 'name': 'str'})
+    def NAME(S, lst, i): return S.app('DECL_NAME', [lst, i], I)                       # code of the name of the i-th declaration of the list
+    def LAST(S, lst, lit, k):
+        """spec function: index of the last declaration among the first k whose name is `lit`, -1 if none.
+        Defined by recursion on k; the two defining equations are instantiated where the loop needs them."""
+        f = S.fn('LAST_' + lit.replace('-', '_'), [I, I], I)
+        return f(lst, k)
+    def last_axioms(S, lst, lit, k):
+        code = S.lit(lit).code
+        S.fact(f'last0-{lit}-{lst}', LAST(S, lst, lit, z3.IntVal(0)) == -1)
+        S.fact(f'laststep-{lit}-{lst}-{k}', LAST(S, lst, lit, k + 1) == z3.If(NAME(S, lst, k) == code, k, LAST(S, lst, lit, k)))
+    def decls_param(S, p, ex):
+        L = fresh(I, 'ndecls'); S.fact('ndecls>=0', L >= 0)
+        return VRef(p.alloc({'len': L, 'objlist': True, 'id': fresh(I, 'decl_list')}), 'list')
+    def scan_elem(S, k, ex, cell, path):
+        # the k-th element: an opaque Declaration whose `name` is DECL_NAME(list, k); `idx` is a ghost field remembering which element it is
+        ref = VRef(path.alloc({'__class__': 'tinycss2.ast:Declaration', '__open__': True, 'idx': VInt(k), 'name': VStr(code=NAME(S, cell['id'], k))}), 'tinycss2.ast:Declaration')
+        return ref, []
+    def is_last(S, path, v, lst, lit, k):
+        """v (None or a Declaration with ghost idx) is exactly the last declaration named `lit` among the first k"""
+        last = LAST(S, lst, lit, k)
+        if isinstance(v, VNone): return last == -1
+        if isinstance(v, VOpt):
+            inner = v.inner
+            idx = path.cell(inner.oid)['idx'].t if isinstance(inner, VRef) else None
+            if idx is None: return S.false
+            return z3.If(v.isnone, last == -1, z3.And(idx == last, last >= 0))
+        if isinstance(v, VRef):
+            return z3.And(path.cell(v.oid)['idx'].t == last, last >= 0)
+        return S.false
+    def scan_inv(S, a, st, k):
+        lst = st._path.cell(a.valid_decls.oid)['id']
+        last_axioms(S, lst, 'color', k); last_axioms(S, lst, 'background-color', k)
+        return {'color_is_last': is_last(S, st._path, st.color_decl, lst, 'color', k), 'background_is_last': is_last(S, st._path, st.bg_decl, lst, 'background-color', k)}
+    def scan_post(which, lit):
+        def f(S, a, r, path):
+            cell = path.cell(a.valid_decls.oid)
+            v = S.item(r, which)
+            return is_last(S, path, v, cell['id'], lit, cell['len'])
+        return f
+    reg.add(Contract(
+        QS, params={'node_list': 'unk', 'declarations_map': 'unk', 'default_bg': 'str', 'stats': 'unk', 'file_path': 'unk', 'variables': 'unk', 'mode': 'int', 'premium': 'bool',
+                    'valid_decls': decls_param, 'color_decl': 'none', 'bg_decl': 'none'},
+        pre=None, result='unk', pure=False, raises=(),
+        posts={'text_colour_is_the_last_color_declaration': scan_post(0, 'color'), 'background_is_the_last_background_color_declaration': scan_post(1, 'background-color')},
+        props={'text_colour_is_the_last_color_declaration': ['C08'], 'background_is_the_last_background_color_declaration': ['C08'], 'inv:color_is_last': ['C08'], 'inv:background_is_last': ['C08']},
+        loops=[LoopSpec('valid_decls', scan_inv, elem=scan_elem, pos=0, shapes={'color_decl': ('opt', DOBJ), 'bg_decl': ('opt', DOBJ)},
+                        roles={'carried': ['color_decl', 'bg_decl']})],
+        opts={'local_roles': ['valid_decls', 'color_decl', 'bg_decl']},
+        note='extracted loop: see vf/extract.py; LAST is the recursive spec function "index of the last declaration with that name"'))
